@@ -41,7 +41,7 @@ doc=''
 for p in parts:
     s=open(p).read()
     s=s.replace('<<MUTANTS_TABLE>>',mutants_table()).replace('<<SEEDED_TABLE>>',seeded_table('seeded','round 1'))
-    for n in (2,3,4,5,6,7,8):
+    for n in (2,3,4,5,6,7,8,9):
         tag=f'<<SEEDED{n}_TABLE>>'
         if tag in s:
             s=s.replace(tag,seeded_table(f'seeded{n}',f'round {n}') if os.path.isdir(f'{V}/seeded{n}') else '(none yet)\n')
